@@ -4,7 +4,7 @@ import sys
 
 from . import build, drv
 
-VARIANTS = ["rel", "san"]
+VARIANTS = ["rel", "san", "tsabi", "tsan"]
 
 
 def main():
@@ -14,6 +14,9 @@ def main():
         return 2
     drv.exe("rel")
     drv.exe("san")
+    from .props import c06
+    c06.build_vsched()
+    c06.build_freerun()
     return 0
 
 
